@@ -209,7 +209,7 @@ def r3(F, R):
                     continue
                 R.bad("C06-R3", "%s:stray-mutator" % b.path, "%s @%s" % (b.path, loc(t["span"])),
                       "transformation mutated outside AdaptStrategy::{adapt,init}")
-    R.floor("C06-R3", 3)
+    R.floor("C06-R3", 2)  # one mutator per strategy at least (merging the two update_params calls is a legal refactor)
 
 
 def calls_in_region(b, region):
